@@ -266,12 +266,20 @@ class Block:
             # The derived levels include factors that are not basic factors.
             raise RuntimeError(f"Derived levels in experiment design include factors that are not listed as basic "
                                f"factors: {', '.join(str(name) for name in undefined_factor_names)}.")
-        from sweetpea._internal.constraint import AtLeastKInARow, MinimumTrials
+        from sweetpea._internal.constraint import AtLeastKInARow, MinimumTrials, Exclude
         for c in self.constraints:
             if isinstance(c, MinimumTrials):
                 c.apply(self, None)
+        # `Exclude` constraints register their levels with the block, and the trial count
+        # depends on them; other constraints ask for the trial count while they are validated
+        # (and it is cached), so the exclusions have to be known first whatever the order
+        # in which the constraints were given
         for c in self.constraints:
-            c.validate(self)
+            if isinstance(c, Exclude):
+                c.validate(self)
+        for c in self.constraints:
+            if not isinstance(c, Exclude):
+                c.validate(self)
         for c in self.constraints:
             if isinstance(c, AtLeastKInARow):
                 c.max_trials_required = self.trials_per_sample() * c.k
@@ -498,26 +506,60 @@ class Block:
             return True
         if self.crossings == []:
             return False
-        for f in self.crossings[0]:
-            if isinstance(f, DerivedFactor) and not f.has_complex_window and f in di:
+        for f in di:
+            if isinstance(f, DerivedFactor) and not f.has_complex_window:
                 l = cast(DerivedLevel, di[f])
                 # Levels for factors that are not in `di` are unconstrained, so the
                 # combination is inconsistent only if no choice of those levels works
-                # (which matches how impossible combinations are counted for the crossing size)
-                argss = [([di[df].name] if df in di else [ll.name for ll in df.levels])
-                         for df in l.window.factors]
-                if not any(l.window.predicate(*args) for args in product(*argss)):
+                # (this is also how impossible combinations are counted for the crossing size)
+                if not any(l.window.predicate(*args) for args in self._possible_arguments(l.window.factors, di)):
                     return True
         # An excluded level of a derived factor that is not in `di` rules the combination out
         # when every choice of levels for the argument factors outside `di` yields that level
-        # (which matches how excluded combinations are counted for the crossing size)
+        # (this is also how excluded combinations are counted for the crossing size)
         for f, el in self.exclude:
             if isinstance(el, DerivedLevel) and not f.has_complex_window and f not in di:
-                argss = [([di[df].name] if df in di else [ll.name for ll in df.levels])
-                         for df in el.window.factors]
-                if all(el.window.predicate(*args) for args in product(*argss)):
+                possible = self._possible_arguments(el.window.factors, di)
+                if possible and all(el.window.predicate(*args) for args in possible):
                     return True
         return False
+
+    def _possible_arguments(self, factors: List[Factor], di: Dict[Factor, Any]) -> List[tuple]:
+        """The tuples of level names that the given argument factors can show in one trial,
+        given the levels fixed in `di`. An argument that is itself a within-trial derived
+        factor is not free: its level follows from its own arguments, which may in turn be
+        fixed by `di`. Every other factor outside `di` is unconstrained.
+        """
+        free = cast(List[Factor], [])
+        def collect(f: Factor):
+            if f in di or f in free:
+                return
+            if isinstance(f, DerivedFactor) and not f.has_complex_window:
+                for af in cast(DerivedLevel, f.levels[0]).window.factors:
+                    collect(af)
+            else:
+                free.append(f)
+        for f in factors:
+            collect(f)
+        results = cast(List[tuple], [])
+        for combo in product(*[list(f.levels) for f in free]):
+            env = dict(di)
+            env.update(zip(free, combo))
+            def level_of(f: Factor):
+                if f not in env:
+                    env[f] = None
+                    for l in f.levels:
+                        largs = [level_of(af) for af in cast(DerivedLevel, l).window.factors]
+                        if all(a is not None for a in largs) and cast(DerivedLevel, l).window.predicate(*[a.name for a in largs]):
+                            env[f] = l
+                            break
+                return env[f]
+            args = [level_of(f) for f in factors]
+            if all(a is not None for a in args):
+                t = tuple(a.name for a in args)
+                if t not in results:
+                    results.append(t)
+        return results
 
     def build_backend_request(self) -> BackendRequest:
         """Apply all constraints to build a :class:`.BackendRequest`. Formerly
